@@ -95,6 +95,9 @@ def clause_upserts(prog, rep, sch, sites, only_tables=None):
             rep.check(nonkey <= set(st.update_set), "upsert-complete", "%s/%s" % (last_seg(s.fn.root), st.table),
                       "ON CONFLICT DO UPDATE assigns every non-key column (lookup returns the last value saved)",
                       "upsert on %s does not update column(s) %s: a re-save keeps stale values" % (st.table, sorted(nonkey - set(st.update_set))), s.loc())
+            rep.check(not getattr(st, "update_where", None), "upsert-complete", "%s/%s/unconditional" % (last_seg(s.fn.root), st.table),
+                      "the update side of the upsert is unconditional", "the upsert on %s only updates rows satisfying `%s`: saving over any other row "
+                      "is silently dropped (the memory backend overwrites; a lookup no longer returns the last value saved)" % (st.table, (getattr(st, "update_where", "") or "")[:80]), s.loc())
             pk = set(sch.pk(st.table))
             uniq = [set(u) for u in sch.tables[st.table]["unique"]] + [pk]
             rep.check(set(st.conflict_cols) in uniq, "upsert-complete", "%s/%s/conflict-target" % (last_seg(s.fn.root), st.table),
@@ -132,3 +135,55 @@ def sibling_snapshot_copy(prog, rep, sites, rule, prefix, snap_table="group_stat
                   "restore writes the surviving snapshots back with %s: their %s no longer is what it was before the rollback"
                   % ("; ".join(["%s = %s" % cv for cv in computed] + ["%s not read" % c for c in unread]),
                      ", ".join([c for c, v in computed] + unread)), w.loc())
+
+
+CONTENT_CHANGERS = ("dedup", "dedup_by", "dedup_by_key", "sort", "sort_by", "sort_by_key", "sort_unstable", "sort_unstable_by", "sort_unstable_by_key",
+                    "retain", "retain_mut", "truncate", "reverse", "trim", "trim_start", "trim_end", "trim_matches", "to_lowercase", "to_uppercase",
+                    "to_ascii_lowercase", "to_ascii_uppercase", "make_ascii_lowercase", "make_ascii_uppercase", "replace", "replacen", "filter",
+                    "filter_map", "take", "skip", "take_while", "skip_while", "step_by", "rev", "drain", "swap_remove", "split_off", "pop", "clear",
+                    "normalize", "nfc", "nfkc", "unique")
+
+
+def clause_stored_verbatim(prog, rep, sites, rule, only_tables, floor=1):
+    """a save stores the record it was given: no value bound to the INSERT was produced by an operation that changes content (dedup, sort,
+    retain, trim, case folding, filter ...).  The record's other columns (the id that is the hash of these fields, the embedded event
+    JSON) and the memory backend keep the original, so a normalised column makes the stored row disagree with itself and with the
+    other backend."""
+    import analysis as A
+    import os
+    import sys
+    sys.path.insert(0, os.path.join(os.path.dirname(os.path.abspath(__file__)), "props"))
+    import c09
+    n = 0
+    for s in sites:
+        st = s.stmt
+        if st.kind != "INSERT" or st.table not in only_tables:
+            continue
+        if s.fn.root and ("snapshot" in s.fn.root or "restore" in s.fn.root):
+            continue
+        root = prog.fns.get(s.fn.root, s.fn)
+        scope = set(q for q in prog.fns if q == root.path or q.startswith(root.path + "::{closure"))
+        for l in c09.bound_param_locals(s.fn, s):
+            n += 1
+            og = A.origins(prog, s.fn, l, scope=scope, max_frames=2)
+            bad = sorted(set(x.name for x in og.calls if x.name in CONTENT_CHANGERS and x.krate in ("core", "alloc", "std", "nostr", "itertools")))
+            # in-place changes (`let mut t = record.tags.clone(); t.dedup();`): a content-changing call on a `&mut` borrow of a value that
+            # derives from the record argument, anywhere in the save method
+            for q in sorted(scope):
+                g = prog.fns[q]
+                for c in g.live_calls():
+                    if c.name not in CONTENT_CHANGERS or c.krate not in ("core", "alloc", "std", "nostr", "itertools") or not c.args or "p" not in c.args[0]:
+                        continue
+                    r = c.args[0]["p"][0]
+                    borrowed = [x["o"][0]["p"][0] for bb, kind, x in g.defs().get(r, []) if kind == "stmt" and x.get("k") == "ref" and x.get("mutb") == 1 and x["o"] and "p" in x["o"][0]]
+                    for b in borrowed:
+                        dep, _, _ = g.depends_on(b)
+                        if any(2 <= d <= g.nargs for d in dep) and not g.is_closure():
+                            bad.append("%s (in place)" % c.name)
+            bad = sorted(set(bad))
+            rep.check(not bad, rule, "stored-verbatim/%s/%s" % (last_seg(root.path), st.table),
+                      "every value bound to the INSERT into %s is the record's own (serialised as is)" % st.table,
+                      "%s changes the record before storing it (%s on the way to the bound values): the stored %s row no longer carries what it "
+                      "was given — it disagrees with the id / embedded event stored next to it and with the memory backend" % (root.label(), ", ".join(bad), st.table), s.loc())
+    rep.floor(rule, "bound parameter lists of save statements (%s)" % ", ".join(sorted(only_tables)), n, floor)
+
